@@ -202,6 +202,19 @@ def run(ctx: Ctx):
         pr = P.gen_problem(ctx.rng)
         if ctx.rng.random() < 0.5:
             pr["options"] = {k: ctx.rng.random() < 0.5 for k in ("DO_BALANCED_CC", "DO_VERTICAL_GCC", "DO_ASSITED_HT") if ctx.rng.random() < 0.7}
+        if ctx.rng.random() < 0.25:
+            # a large plant with a very small stream alone at the hottest / coldest end: a real but tiny end segment
+            for st in pr["streams"]:
+                st["heat_flow"] *= 10.0
+            temps = [st[k] for st in pr["streams"] for k in ("t_supply", "t_target")]
+            hi, lo = max(temps), min(temps)
+            z = pr["streams"][0]["zone"]
+            for k in range(ctx.rng.choice([1, 2])):
+                d = ctx.rng.choice([0.05, 0.3, 0.5, 0.02])
+                if ctx.rng.random() < 0.5:
+                    pr["streams"].append({"name": f"tiny{k}", "zone": z, "t_supply": hi + 20.0, "t_target": hi + 30.0, "heat_flow": d, "dt_cont": 5.0, "htc": 1.0})
+                else:
+                    pr["streams"].append({"name": f"tiny{k}", "zone": z, "t_supply": lo - 20.0, "t_target": lo - 30.0, "heat_flow": d, "dt_cont": 5.0, "htc": 1.0})
         probs.append(pr)
     for pr in probs:
         case = {"kind": "service", "problem": pr}
